@@ -119,6 +119,17 @@ def api_case(res, rng, metric, kind):
     res.traces += 1
     for kind_, what in probs[:1]:
         res.violation(key + ":" + kind_, what, case)
+    if not probs and rng.integers(3) == 0:
+        # building the search structures must not disturb what the index exposes as its neighbour graph
+        try:
+            idx.prepare()
+            i2, d2 = idx.neighbor_graph
+            if not (np.array_equal(inds, i2) and np.array_equal(dists, d2, equal_nan=True)):
+                res.violation(key + ":changed-by-prepare", "neighbor_graph read after prepare() differs from the one read after construction "
+                              "(%d rows differ)" % int(np.sum(np.any((inds != i2) | (dists != d2), axis=1))), case)
+        except Exception as e:  # noqa
+            res.violation(key + ":exception", "prepare(): %s: %s" % (type(e).__name__, str(e)[:300]), case)
+        res.count("api_graph_after_prepare")
 
 
 def run(res, tier, seed, search):
